@@ -480,6 +480,8 @@ func (ex *pathExec) assert(cond value, label string, where string) {
 		// already reported by the run that discovered it
 		if violated {
 			ex.addPC(c)
+		} else if e.v == 1 && !c.isConst() {
+			ex.pcSet[c.id] = true
 		}
 		return
 	}
@@ -504,7 +506,11 @@ func (ex *pathExec) assert(cond value, label string, where string) {
 	default:
 		ex.res.Unknown++
 	}
-	ex.trace = append(ex.trace, traceEntry{kind: tkAssert, b: violated})
+	cached := uint64(0)
+	if r == resUnsat && !c.isConst() {
+		cached = 1
+	}
+	ex.trace = append(ex.trace, traceEntry{kind: tkAssert, b: violated, v: cached})
 	ex.pos = len(ex.trace)
 	if violated {
 		ex.res.Violations = append(ex.res.Violations, &Violation{
